@@ -57,10 +57,17 @@ def rich_doc(rng, variant: int, kind: str = "single", nfig: int = 2) -> dict:
     size = (9, 11)[variant % 2]
     bstyle = ("single", "double")[variant % 2]
 
+    words = ("Adverse Event Leading To Withdrawal Of Study Treatment And Any Other Treatment Emergent Event "
+             "Reported During The Whole Observation Period").split()
+
     def frame(ncols, nrows):
         cols = []
         for j in range(ncols):
             vals = [rng.choice(LATEX_TEXTS + ["Drug A", "12.5", "n (%)"]) for _ in range(nrows)]
+            if j == 0:
+                # labels of graded length: whatever the column width and font, some sit just below a wrap
+                # boundary, so a perturbed width measurement moves line counts and page breaks
+                vals = [" ".join(words[: 3 + (i * 2 + variant) % (len(words) - 3)]) for i in range(nrows)]
             cols.append([f"c{j}", "str", vals])
         return {"cols": cols}
 
@@ -180,7 +187,7 @@ def gen_plan(rng) -> dict:
                         r[c] = R_json_copy(recs[0][c])
         sp = rng.choice([0.5, 1.0])
         share = [{c: rng.random() < sp for c in SHARED_COMPONENTS} for _ in recs]
-    if rng.random() < 0.04:
+    if rng.random() < 0.08:
         same_doc = {str(n - 1): 0}  # two threads encode the very same document object
         recs[n - 1] = R_json_copy(recs[0])
     kind = rng.choice(["strata", "strata", "random", "pct", "one"])
@@ -1138,11 +1145,13 @@ def sweep_groups(root: int, n_groups: int) -> list:
     groups = [("single-vs-single", SA, SB), ("multi-vs-figure", MA, FB), ("figure-overlap", FA, FB),
               ("equal-valued", SB, _json.loads(_json.dumps(SB))), ("single-vs-failing", SA, failing or SB),
               ("pageby-vs-pageby", PA, PB), ("shared-components", SA, SBs), ("failing-vs-grouped", GF, GG),
+              ("same-document", GG, _json.loads(_json.dumps(GG))),
               ("multi-vs-multi", MA, MB), ("grouped-vs-single", grouped or MB, SA),
               ("figure-vs-single", FA, SB)]
     return groups[:n_groups]
 
 
+GROUP_SAME_DOC = {"same-document": {"1": 0}}  # thread 1 encodes the very document object of thread 0
 GROUP_SHARE = {"shared-components": [{c: c in ("footnote", "source", "title", "page_header", "page_footer")
                                        for c in SHARED_COMPONENTS}] * 2}
 
@@ -1185,6 +1194,21 @@ def sweep_jobs(root: int, groups: list, refcache: RefCache, specs: list, hot_inf
             continue
         name, a, b = groups[gi]
         recs = [a, b]
+        if trace_mode == "grid2":
+            # two pre-emptions without any targeting signal: A paused at one of n1 evenly spread boundaries, B paused
+            # at every stride-th boundary of its own encode, A resumes to completion, then B
+            n1 = 6 if stride >= 16 else 16
+            ra, rb = refcache.get(a), refcache.get(b)
+            ka, kb = ra.get("ncalls") or 0, rb.get("ncalls") or 0
+            for k1 in [max(1, (ka * (i + 1)) // (n1 + 1)) for i in range(n1)]:
+                for j2 in range(1 + stride // 2, kb + 1, stride):
+                    plan = {"recipes": recs, "decider": {"kind": "sweep"}, "first": 0, "trace_mode": "call",
+                            "decisions": [[k1, 1], [k1 + j2, 0]], "finish_pref": [0, 1], "abort": None,
+                            "share": GROUP_SHARE.get(name), "same_doc": GROUP_SAME_DOC.get(name)}
+                    jobs.append({"idx": idx, "sweep": {"group": name, "order": 0, "k": k1, "K": ka, "mode": "grid2",
+                                                       "stride": stride}, "plan": plan})
+                    idx += 1
+            continue
         for order in (0, 1):
             first = order
             ref_first = refcache.get(recs[first])
@@ -1193,7 +1217,8 @@ def sweep_jobs(root: int, groups: list, refcache: RefCache, specs: list, hot_inf
             off = core.rng_for(root, PROP, "sweep-offset", gi, order, trace_mode).randrange(stride) if stride > 1 else 0
             for k in range(1 + off, K + 1, stride):
                 plan = {"recipes": recs, "decider": {"kind": "sweep"}, "first": first, "trace_mode": trace_mode,
-                        "decisions": [[k, 1 - first]], "abort": None, "share": GROUP_SHARE.get(name)}
+                        "decisions": [[k, 1 - first]], "abort": None, "share": GROUP_SHARE.get(name),
+                        "same_doc": GROUP_SAME_DOC.get(name)}
                 jobs.append({"idx": idx, "sweep": {"group": name, "order": order, "k": k, "K": K, "mode": trace_mode,
                                                    "stride": stride}, "plan": plan})
                 idx += 1
@@ -1256,11 +1281,13 @@ def sweep_jobs(root: int, groups: list, refcache: RefCache, specs: list, hot_inf
 # batch
 # --------------------------------------------------------------------------
 
-TIERS = {"quick": {"runs": 600, "wall": 420.0, "groups": 8, "hot_cap": 600, "hot3_cap": 100,
+TIERS = {"quick": {"runs": 600, "wall": 420.0, "groups": 9, "hot_cap": 600, "hot3_cap": 100,
                    "sweeps": [(0, "call", 48), (1, "call", 48), (2, "call", 8), (3, "call", 64), (4, "call", 48),
-                              (5, "call", 2048), (6, "call", 48), (7, "call", 8), (0, "line", 384)]},
-         "thorough": {"runs": 60000, "wall": 3000.0, "groups": 11, "hot_cap": 4000, "hot3_cap": 2500,
-                      "sweeps": [(i, "callret", 1) for i in range(11)] + [(i, "line", 4) for i in range(11)]}}
+                              (5, "call", 2048), (6, "call", 48), (7, "call", 8), (8, "call", 16), (8, "grid2", 16),
+                              (0, "line", 384)]},
+         "thorough": {"runs": 60000, "wall": 3000.0, "groups": 12, "hot_cap": 4000, "hot3_cap": 2500,
+                      "sweeps": [(i, "callret", 1) for i in range(12)] + [(i, "line", 4) for i in range(12)]
+                      + [(8, "grid2", 2), (7, "grid2", 4), (3, "grid2", 64)]}}
 
 
 def main(opts) -> int:
